@@ -42,9 +42,14 @@ where
     }
 
     fn deserialize_pk(bytes: &[u8]) -> Result<Self::Pk, InternalError> {
+        // `from_sec1_bytes` also understands other SEC1 point formats of the same
+        // length (e.g. the "compact" tag 0x05); only accept the compressed encoding
+        // produced by `serialize_pk`, so that every key has exactly one encoding.
         PublicKey::<Self>::from_sec1_bytes(bytes)
             .map(|public_key| public_key.to_projective())
-            .map_err(|_| InternalError::PointError)
+            .ok()
+            .filter(|pk| Self::serialize_pk(*pk).as_slice() == bytes)
+            .ok_or(InternalError::PointError)
     }
 
     fn random_sk<R: RngCore + CryptoRng>(rng: &mut R) -> Self::Sk {
